@@ -35,7 +35,7 @@ def real_detect(lines):
 def fixed_variants(st, rng):
     return layout.fixed_layout(st, rng, gen.USER_NAMES, wrap=rng.choice([72, 72, 60, 40, 30]),
                                contc=rng.choice("&1$x+.2"), cmt=rng.choice("Cc*!"),
-                               label_style=rng.choice(["left", "right", "mid"]), comments=True,
+                               label_style=rng.choice(["left", "right", "mid", "spaced"]), comments=True,
                                p_comment=rng.choice([0.0, 0.2]))
 
 
